@@ -214,6 +214,8 @@ class World:
             return []
         if self.small:
             evs = [("Q", ci, ri) for ci in (0, 3, 4) for ri in (2, 3)] + [("SW", 1), ("SP", 1)]
+            if self.pv == 0:
+                evs.append(("SPA",))
             if self.last is not None and not self.edited:
                 evs.append(("EL",))
             return evs
@@ -222,6 +224,12 @@ class World:
                # (checked and reported there), not part of C10's list of grid kinds
                if not (self.kind.startswith("periodic") and RADII[ri] == np.inf)]
         evs += [("SP", 1), ("SP", 2), ("SW", 1), ("SW", 2)]
+        # augmented assignment through the property (grid.points += s): Python edits the array the getter returned and
+        # then calls the setter with that same object -- a reassignment like any other (seeded change C10-E)
+        if self.pv == 0:
+            evs.append(("SPA",))
+        if self.wv == 0:
+            evs.append(("SWA",))
         if self.kind in SELECTABLE and self.nsel < 1:
             # SEL(k): continue with the selection grid[index_k] (it must not inherit anything, e.g. a
             # neighbour tree, from its parent).  Added after seeded change C11-B was missed.
@@ -260,6 +268,42 @@ class World:
                 if not (np.array_equal(g.points, self.P[self.pv]) and np.array_equal(g.weights, self.W[self.wv])):
                     self._bad("EL:parent-changed", "editing a local grid in place changed the parent grid's points or weights")
                 return ("EL",)
+            if ev[0] in ("SPA", "SWA"):
+                # version 1 of the reference arrays is version 0 after exactly this update
+                try:
+                    if ev[0] == "SPA":
+                        if self.kind == "oned":
+                            g.points *= 0.9
+                            g.points += 0.05
+                        else:
+                            g.points += 0.3
+                        self.pv = 1
+                    else:
+                        g.weights *= 2.0
+                        self.wv = 1
+                    ok = True
+                except AttributeError:
+                    ok = False      # no setter: the getter's array may be a temporary; the state must not change
+                except Exception as exc:
+                    self._bad(f"{ev[0]}:raised:{type(exc).__name__}", f"augmented assignment raised {type(exc).__name__}: {exc}")
+                    return ("exc", type(exc).__name__)
+                if not ok:
+                    # classes whose getter hands out the stored array have been edited in place although the setter refused:
+                    # follow whatever the object holds now if it is one of the two versions, else report
+                    for k, p in enumerate(self.P):
+                        if ev[0] == "SPA" and np.array_equal(g.points, p):
+                            self.pv = k
+                    for k, w in enumerate(self.W):
+                        if ev[0] == "SWA" and np.array_equal(g.weights, w):
+                            self.wv = k
+                if not (np.allclose(g.points, self.P[self.pv], rtol=1e-15, atol=1e-15) and np.allclose(g.weights, self.W[self.wv], rtol=1e-15, atol=0)):
+                    self._bad(f"{ev[0]}:state-mismatch", f"after the augmented assignment (accepted={ok}) the grid holds neither the "
+                              f"old nor the updated array")
+                else:
+                    # continue with the arrays the object really holds (the update may differ from the reference by an ulp)
+                    self.P[self.pv] = np.array(g.points, dtype=float)
+                    self.W[self.wv] = np.array(g.weights, dtype=float)
+                return (ev[0], ok)
             kind, k = ev
             if kind == "SEL":
                 n = len(self.P[self.pv])
